@@ -177,8 +177,8 @@ def classifyRule (cfg : Config Float) (name : Bytes) (ty : Nat) (spec : Option N
 
 /-- some reference name of the template (bare or braced) is directly followed by a byte ≥ 0x80: at each `$`,
     skip an optional `{` and the (possibly empty) ASCII word run, test the next byte. Go's `regexp.Expand` (regex rules)
-    scans names rune by rune and may take that byte into the name (`$1é`); the glob formatter and the
-    specification do not (`SE.Props.C11.unicode_letter_after_ref_counterexample`). -/
+    scans names rune by rune and may take that byte into the name (`$1é`); until the repair a7bcc3e the glob
+    formatter (and the then ASCII specification) did not (`SE.Props.C11.reference_syntax_repaired`). -/
 def nonAsciiAfterRef : Bytes → Bool
   | [] => false
   | b :: rest =>
@@ -227,8 +227,10 @@ def tmplNotes (cfg : Config Float) (rx : Rx) (name : Bytes) (m : Mapped) : List 
       match got with
       | none => []          -- outside the modelled Sprintf fragment: compared by nobody
       | some g =>
-        let want := expandSpec caps tmpl.length tmpl
-        if g == want then [] else [s!"tmpl:{classifyTmpl tmpl name}:{what}:want={encHex want}"]
+        match expandSpec caps tmpl.length tmpl with
+        | none => []        -- a reference name with a rune outside the modelled Unicode fragment: nothing specified
+        | some want =>
+          if g == want then [] else [s!"tmpl:{classifyTmpl tmpl name}:{what}:want={encHex want}"]
     chk "name" r.name m.name ++ (r.labels.zip m.labels).flatMap fun (kt, kv) => chk (encHex kt.1) kt.2 kv.2
 
 def mapperSub (s : MapperSess) (toks : List String) : MapperSess × String :=
